@@ -171,7 +171,10 @@ func verifC10Key(id int, ts int, salt uint64) data_model.Key {
 
 func (cl *verifC10Cluster) evalShard(t *testing.T, ln *verifC10ShardLine, salt uint64, lane int) {
 	meta := &format.MetricMetaValue{MetricID: int32(ln.Id), ShardStrategy: ln.Strat, ShardNum: uint32(ln.Num),
-		ShardFixedKey: uint32(ln.Fk), ShardFixedKey2: uint32(ln.Fk2), ShardFixedKey2Timestamp: uint32(salt % 7)}
+		ShardFixedKey: uint32(ln.Fk), ShardFixedKey2: uint32(ln.Fk2)}
+	if len(ln.Ts) > 0 { // some of the key timestamps are before, some after the secondary shard's start
+		meta.ShardFixedKey2Timestamp = uint32(ln.Ts[int(salt)%len(ln.Ts)])
+	}
 	var scratch []byte
 	for i, ts := range ln.Ts {
 		key := verifC10Key(ln.Id, ts, salt)
